@@ -3,3 +3,4 @@ import ProfiVerif.Props.C10
 import ProfiVerif.Props.C16
 import ProfiVerif.Props.C12
 import ProfiVerif.Props.C17
+import ProfiVerif.Props.C18
